@@ -134,6 +134,9 @@ func runOne(pc *propCheck, ctxp **Ctx, repo, verif, tier string, seed int, only 
 	}
 	c := *ctxp
 	if c.Norm != nil {
+		for _, s := range c.Norm.Renamed {
+			r.Note("normalisation: renamed function (body identical to the baseline's) analysed under its baseline name: %s", s)
+		}
 		for _, s := range c.Norm.Inlined {
 			r.Note("normalisation: new helper inlined into its callers before the analysis: %s; positions refer to the tree after inlining", s)
 		}
